@@ -122,7 +122,9 @@ StepOK(st, rec, i) ==
                     IN [st EXCEPT !.hdr = o.hdr, !.raw = o.raw,
                                   \* a field that selects the next layer or gives a header length changes the structure:
                                   \* what later reads see (cached layers or the new structure) is not settled
-                                  !.rfree = st.rfree \/ (r.lay.s = "ok" /\ <<r.lay.kind, Alias(r.lay.kind, s.prop)>> \in Structural)]
+                                  \* (an assignment that leaves the bytes as they were changes no structure)
+                                  !.rfree = st.rfree \/ (/\ r.lay.s = "ok" /\ <<r.lay.kind, Alias(r.lay.kind, s.prop)>> \in Structural
+                                                          /\ (o.raw # st.raw \/ o.hdr # st.hdr))]
        [] s.op = "write" ->
             IF s.bytes = st.hdr \o st.raw THEN st ELSE [st EXCEPT !.ok = FALSE, !.at = i, !.why = "write"]
 
